@@ -15,7 +15,7 @@
 (*   Latency          SRAM transfers are acknowledged in the cycle after they reach the bus,         *)
 (*                    CSR transfers g + 1 cycles after                                                *)
 (*   Served (liveness) every transfer to an assigned address is eventually acknowledged, provided    *)
-(*                    initiators do not sit on the bus for ever (WF on leaving hold / giving up)      *)
+(*                    every owner eventually releases the bus (SF on going idle)      *)
 EXTENDS SocSys, TLC
 CONSTANTS NI, HasLock, Adrs, Dats, SelSet, WithRo
 VARIABLES st, ini, ro, gm, gr, age, tick
@@ -33,6 +33,7 @@ cfg == [n |-> NI, lock |-> HasLock, g |-> 2, cdw |-> 1,
                     kind |-> IF WithRo THEN "ro" ELSE "rw", init |-> <<0>>]>>]
 Idx == 1..NI
 Sels3 == {W(1, 1), W(1, 0), W(0, 1)}
+Sels1 == {W(1, 1)}
 Sels2 == {W(1, 1), W(0, 1)}
 Sels == SelSet
 NewReqs == [we : {0}, adr : Adrs, sel : Sels, dat : {W(0, 0)}] \cup [we : {1}, adr : Adrs, sel : Sels, dat : Dats]
@@ -86,7 +87,7 @@ Tick ==
               ELSE gr[k]]
   \* cycles the current owner's transfer has been on the shared bus
   /\ age' = [k \in Idx |-> IF ini[k].ph = "req" /\ st.arb.grant = k /\ Ack(k) = 0 /\ ini'[k] = ini[k]
-                           THEN age[k] + 1 ELSE 0]
+                           THEN Min2(age[k] + 1, cfg.g + 2) ELSE 0]      \* saturates (unassigned: never served)
 Init == /\ st = SysInit(cfg) /\ ini = [k \in Idx |-> IdleI] /\ ro = <<0>>
         /\ gm = [a \in 0..1 |-> cfg.sram.init[a + 1]]
         /\ gr = [k \in 1..2 |-> IF cfg.regs[k].kind = "rw" THEN Known(cfg.regs[k].init) ELSE Unk]
@@ -109,10 +110,13 @@ Latency == \A k \in Idx : /\ (k \in Acked /\ InSram(cfg, ini[k].adr) => age[k] =
                           /\ (k \in Acked /\ InCsr(cfg, ini[k].adr) => age[k] = cfg.g + 1)
                           /\ age[k] <= cfg.g + 1 \/ ~Mapped(cfg, ini[k].adr)
 \* liveness: nobody sits on the bus for ever
+\* (the arbiter never pre-empts an owner that keeps CYC up - back-to-back transfers included - so, as C09
+\* says, service is only promised if every owner eventually RELEASES the bus: strong fairness on going idle,
+\* which is possible whenever a transfer ends, in hold, and for a transfer to an unassigned address)
 Fair == /\ WF_vars(Tick)
-        /\ \A k \in Idx : WF_vars(Tick /\ ini[k].ph = "hold" /\ ini'[k].ph # "hold")
-        /\ \A k \in Idx : WF_vars(Tick /\ ini[k].ph = "req" /\ ~Mapped(cfg, ini[k].adr) /\ ini'[k].ph = "idle")
+        /\ \A k \in Idx : SF_vars(Tick /\ ini[k].ph # "idle" /\ ini'[k].ph = "idle")
 LiveSpec == Spec /\ Fair
+WeakSpec == Spec /\ WF_vars(Tick)          \* without the release assumption Served must FAIL
 Served == \A k \in Idx : (ini[k].ph = "req" /\ Mapped(cfg, ini[k].adr)) ~> (Ack(k) = 1)
 \* vacuity witnesses (each must be refuted)
 NeverTwoWaiting == ~(\E a, b \in Idx : a # b /\ ini[a].ph = "req" /\ ini[b].ph = "req")
